@@ -64,14 +64,24 @@ def pull(api, blob, budget):
     p.color = False
     r = CountingReader(blob, budget)
     items = []
+    objs = []
     status = 'done'
     try:
         for it in getattr(p, api)(r):
             items.append(render(it))
+            objs.append(it)
     except Budget:
         status = 'budget'
     except Exception:
         status = 'raised'
+    # nothing already reported is later changed: every reported object still renders as it did when reported
+    for i, it in enumerate(objs):
+        try:
+            now = render(it)
+        except Exception as ex:
+            now = 'RAISED ' + type(ex).__name__
+        if now != items[i]:
+            items[i] = 'CHANGED-AFTER-REPORT %r -> %r' % (items[i], now)
     return items, status, r.calls, r.nbytes
 
 
@@ -98,6 +108,8 @@ def make_file(rnd, ver):
     g = gen.ProgGen(w, rnd, ntids=2, noise=0.05, composites=False)
     progs = [g.program(t, rnd.randrange(1, 3)) for t in (1, 2)]
     stream = gen.interleave(rnd, progs)[:rnd.choice([3, 8, 14])]
+    # a record about a thread, later completed by a record OF that thread (reports must not be patched afterwards)
+    stream += [w.term(1, 4), w.sys('BSC_getpid', 1, 2), w.tpid(4, 55), w.sys('BSC_getpid', 2, 2)]
     recs = []
     for k, a in enumerate(stream, 1):
         data = a.data if a.data is not None else struct.pack('<QQQQ', *[x & ((1 << 64) - 1) for x in a.words])
